@@ -1244,7 +1244,7 @@ example : resolveRecordsZone ⟨false, false, false, .none⟩ false false
 def cbHist5 : List BOp := [.fail 1000500 "a", .fail 1000500 "a", .ok "b", .fail 1001500 "a", .fail 1001500 "a", .fail 1002500 "a"]
 example : ((cbHist5.foldl applyB []).canQuery 1031500 "a").2 = false := by decide
 example : ((cbHist5.foldl applyB []).canQuery 1032500 "a").2 = true := by decide
-example : (((cbHist5 ++ [.ok "a"]).foldl applyB []).canQuery 1002600 "a").2 = true := by decide
+example : (((cbHist5 ++ [BOp.ok "a"]).foldl applyB []).canQuery 1002600 "a").2 = true := by decide
 example : (((cbHist5.take 5).foldl applyB []).canQuery 1001600 "a").2 = true := by decide
 
 end Examples
